@@ -8,6 +8,9 @@ packet); the arithmetic and the recon = decode premise (C01) are not decided her
               (buffer_*, stride_*, buffer_bit_inc_*, save_enhanced_picture_ptr[k], *_sse); no statement may combine two
               planes, an accumulator is reset before it is reused for another plane, and the three results land in the
               member of the same plane (luma_sse / cb_sse / cr_sse)
+  C26.AXIS    the area summed is the visible picture: wherever a picture dimension is reduced by padding or scaled by chroma
+              subsampling, all three belong to the same axis (width - max_input_pad_right >> ss_x ; height - max_input_pad_bottom
+              >> ss_y), through locals
   C26.BUFSEL  the reconstructed picture compared is the one the decoder will show: the reference object's picture when the
               frame is kept as a reference, the picture control set's own recon buffer otherwise, in the bit-depth variant of
               the branch; the same selection idiom is cross-checked at every sibling site of the encoder (polarity and variant)
@@ -28,7 +31,7 @@ PID = 'C26'
 
 META = {
     'technique': 'forward dataflow of colour-plane tags over the event-CFG (copy-paste / plane-consistency analysis), sibling cross-check of the recon-buffer selection idiom over the whole encoder, control-dependence and CFG reachability for the placement of the statistics call',
-    'text': 'Decides structural necessary conditions of exact per-frame SSE reporting: inside psnr_calculations no statement mixes colour planes (source buffer, recon buffer, strides, accumulator and result member all of one plane; accumulators reset between planes), the recon buffer is selected by is_used_as_reference_flag exactly as at every sibling site and in the bit depth of the branch, the source is the saved unfiltered picture when temporal filtering is on, the three values reach the packet members of the same plane under stat_report, the computation is placed after the last in-loop filter, and every guard that skips a frame-level filter when the recon is not needed counts the statistics as a consumer. It does not decide the arithmetic itself (squares, 32-bit truncation, loop extents versus padding) nor that the encoder recon equals what a decoder reconstructs (C01).',
+    'text': 'Decides structural necessary conditions of exact per-frame SSE reporting: inside psnr_calculations no statement mixes colour planes (source buffer, recon buffer, strides, accumulator and result member all of one plane; accumulators reset between planes), the summed area uses width with the right padding and horizontal subsampling and height with the bottom padding and vertical subsampling, the recon buffer is selected by is_used_as_reference_flag exactly as at every sibling site and in the bit depth of the branch, the source is the saved unfiltered picture when temporal filtering is on, the three values reach the packet members of the same plane under stat_report, the computation is placed after the last in-loop filter, and every guard that skips a frame-level filter when the recon is not needed counts the statistics as a consumer. It does not decide the arithmetic itself (squares, 32-bit truncation, loop extents versus padding) nor that the encoder recon equals what a decoder reconstructs (C01).',
     'note': 'ssim_calculations shares the structure and is analysed as a sibling (its values are not part of the property statement)',
     'ref': 'DESIGN.md section 9.9',
 }
@@ -276,6 +279,76 @@ def run(P, rep, tier):
                    ('%s copies plane %s into the saved-source slot of the same plane' % (n, sorted(allt)[0])) if ok else
                    '%s is handed members of planes %s: the saved source of one plane would hold another plane' % (n, sorted(allt)))
     rep.floor('C26.PLANE', 5)
+
+    # ---------------- AXIS
+    AXIS_M = {'EbPictureBufferDesc.width': 'X', 'EbPictureBufferDesc.height': 'Y', 'SequenceControlSet.max_input_pad_right': 'X', 'SequenceControlSet.max_input_pad_bottom': 'Y',
+              'SequenceControlSet.subsampling_x': 'X', 'SequenceControlSet.subsampling_y': 'Y', 'EbPictureBufferDesc.max_width': 'X', 'EbPictureBufferDesc.max_height': 'Y'}
+    from engine.reach import ReachingDefs
+    rd = ReachingDefs(psnr)
+    amemo = {}
+
+    def axis(e, ev, depth=0):
+        """axes of a dimension expression: members by vocabulary, locals through their reaching definitions; only through - >> / and casts"""
+        e = strip(e)
+        if not e or depth > 6:
+            return set()
+        if e[0] == 'm':
+            return {AXIS_M[e[1]]} if e[1] in AXIS_M else set()
+        if e[0] == 'v' and e[2] not in ('g', 's'):
+            out = set()
+            for d in rd.at(ev, e[1]):
+                if isinstance(d, tuple):
+                    continue
+                x = d.get('e')
+                rhs = x if d['k'] == 'decl' else (x[3] if x is not None and d['k'] == 'st' and x[0] == 'a' and x[1] == '=' else None)
+                if rhs is not None:
+                    k = (d['b'], d['x'])
+                    if k not in amemo:
+                        amemo[k] = set()
+                        amemo[k] = axis(rhs, d, depth + 1)
+                    out |= amemo[k]
+            return out
+        if e[0] == 'b' and e[1] in ('-', '>>', '/', '+'):
+            if e[1] == '+' and not (strip(e[3])[0] == 'l' or strip(e[2])[0] == 'l'):
+                return set()
+            return axis(e[2], ev, depth + 1) | axis(e[3], ev, depth + 1)
+        return set()
+    nax = 0
+    seen_ax = set()
+    for ev in psnr.events(('st', 'decl')):
+        e = ev.get('e')
+        if e is None:
+            continue
+        for x in subexprs(e):
+            if x[0] == 'b' and x[1] in ('-', '>>', '/') and id(x) not in seen_ax:
+                a = axis(x, ev)
+                for y in subexprs(x):
+                    seen_ax.add(id(y))
+                if a:
+                    nax += 1
+                    if len(a) > 1:
+                        rep.ob('C26.AXIS', 'psnr_calculations/axis@%s:%s' % (ev.get('l'), pstr(x)[:40]), False, psnr.loc(ev),
+                               '%s combines a horizontal and a vertical quantity (width / right padding / ss_x with height / bottom padding / ss_y): the summed area is not the visible picture' % pstr(x)[:90])
+    for bid in psnr.reach():
+        c = psnr.blocks[bid].get('fullcond')
+        evs = psnr.blocks[bid]['ev']
+        if c is None or not evs:
+            continue
+        for x in subexprs(c):
+            if x[0] == 'b' and x[1] in ('-', '>>', '/') and id(x) not in seen_ax:
+                a = axis(x, evs[-1])
+                for y in subexprs(x):
+                    seen_ax.add(id(y))
+                if a:
+                    nax += 1
+                    if len(a) > 1:
+                        rep.ob('C26.AXIS', 'psnr_calculations/axis@%s:%s' % (psnr.blocks[bid].get('tl'), pstr(x)[:40]), False, '%s:%s' % (psnr.loc().rsplit(':', 1)[0], psnr.blocks[bid].get('tl')),
+                               'loop bound %s combines a horizontal and a vertical quantity: the summed area is not the visible picture' % pstr(x)[:90])
+    if nax < 10:
+        raise AnalysisBroken('psnr_calculations: only %d dimension expressions found' % nax)
+    if not any(o['rule'] == 'C26.AXIS' for o in rep.obs):
+        rep.ob('C26.AXIS', 'psnr_calculations/axes', True, psnr.loc(), '%d dimension expressions (visible width / height, chroma scaling), each within one axis' % nax)
+    rep.floor('C26.AXIS', 1)
 
     # ---------------- BUFSEL
     REF = {'EbReferenceObject.reference_picture': 8, 'EbReferenceObject.reference_picture16bit': 16}
